@@ -96,6 +96,7 @@ struct Gen {
     Program p;
     int nmods = 0;
     bool tasks_in_program = false;
+    bool full_bursts = false;
     std::vector<std::vector<long>> remembered_subs;   // C16: subscriptions that may be renewed in place (same topic and flags, fresh user data) next to a stash
     bool batching_mode = false;   // C09: this program configures batch time-outs (internal timers next to the user's) and therefore uses no one-shot source:
                                   // a one-shot source leaves its set when its event is received, which with batching is not when it is handed over
@@ -147,7 +148,8 @@ struct Gen {
         }
         case BURST:
             // crossing the mailbox capacity (8192 messages) is the point of a burst; small ones only add volume
-            p.add(where, "burst", {rmod(), rmod(), (thorough || r.chance(0.4)) ? (long)r.range(8150, 8300) : (long)r.range(100, 400), r.chance(0.3) ? 1 : 0});
+            // (a program either works at mailbox capacity or it does not: full-size bursts are expensive, most programs should stay short)
+            p.add(where, "burst", {rmod(), rmod(), full_bursts ? (long)r.range(8150, 8300) : (long)r.range(100, 400), r.chance(0.3) ? 1 : 0});
             break;
         case SUBS:
             if (r.chance(0.75)) {
@@ -307,6 +309,7 @@ Program gen_core(const std::string &campaign, uint64_t seed, bool thorough) {
     if (campaign == "C20") p.set("filefds", r.chance(0.5) ? 1 : 0);   // every third user descriptor is one epoll refuses
     g.tasks_in_program = (campaign == "C04" ? r.chance(0.6) : r.chance(0.3)) && (g.pf.src_kinds & 32);   // (only where task sources can be generated at all)
     if (campaign == "C09" && r.chance(0.3)) { g.batching_mode = true; g.tasks_in_program = false; }
+    g.full_bursts = thorough ? r.chance(0.6) : r.chance(0.25);
     p.set("tasks", g.tasks_in_program ? 1 : 0);
     bool dispatch_mode = r.chance(0.4);
     p.set("mode", dispatch_mode ? "dispatch" : "blocking");
